@@ -484,7 +484,7 @@ def case_of(req_line):
     return " ".join(t for t in req_line.split(" ")[1:] if not t.startswith("result=") and not t.startswith("steps=")
                     and not t.startswith("final=") and not t.startswith("target=") and not t.startswith("bodyend=")
                     and not t.startswith("mutated=") and not t.startswith("rewritten=") and not t.startswith("nv=") and not t.startswith("nm=")
-                    and not t.startswith("graph=") and not t.startswith("graphfinal=") and not t.startswith("valid="))
+                    and not t.startswith("graph=") and not t.startswith("graphfinal=") and not t.startswith("valid=") and not t.startswith("alive_after_reset="))
 
 
 REL_CASES = set()          # failing cases observed on the release-semantics build (see harness/Cargo.toml, profile relsem)
@@ -2217,6 +2217,10 @@ def stream_s10(cx, plans):
         nonlocal ok, bad_other
         for req, out in pairs:
             cx.cov["disagreements_checked"] += 1
+            alive = toks(req).get("alive_after_reset", "0")
+            if alive not in ("0", ""):
+                # object level, independent of the allocator: cells the run created survive State::reset
+                cx.failing.append(("S10", case_of(req), "%s_cells_created_by_the_run_are_still_alive_after_reset()" % alive))
             if " ok " in out and out.rstrip().endswith("obj=ok"):
                 ok += 1
                 cx.bump("obj/" + fam)
@@ -2362,7 +2366,7 @@ def check_c14(prop, tier, seed):
         stream, cl, det = cx.failing[0]
         p = write_replay(prop, "failing-input", dict(stream=stream, case=cl, observed=det + " (and %d more leaking cases)" % (len(cx.failing) - 1),
                          required="live heap bytes before constructing the generator = after dropping it",
-                         rerun="/verif/build/harness-target/release/pfv-harness heap --case " + cl))
+                         rerun=("/verif/build/harness-target/release/pfv-harness case --trace --graph " if stream == "S10" else "/verif/build/harness-target/release/pfv-harness heap --case ") + cl))
         violations.append((p, ""))
     elif (not lean["ok"]) or cx.corr:
         what = ([dict(kind="proof-obligation", broken=lean["broken"][:6])] if not lean["ok"] else []) + [dict(kind="correspondence", **c) for c in cx.corr]
